@@ -468,34 +468,64 @@ Definition compiled_root (fuel : nat) (isset : bool) (root : list (member_of ty)
 Definition enc_string_like (tagb : list Z) (content : result (list Z)) : result (list Z) :=
   let* c := content in Ok (tlv tagb c).
 
-(** MembersType.encode_member; [] when nothing is emitted *)
-Definition enc_member (fuel : nat) (encf : ty -> value -> result (list Z))
-           (fields : list (string * value)) (m : member_of ty) : result (list Z) :=
+(** MembersType.encode_member; [Some []] when nothing is emitted, [None] when a
+    member that is neither OPTIONAL nor DEFAULT is missing from the value (the
+    EncodeError raised here carries no location) *)
+Definition enc_member_opt (fuel : nat) (encf : ty -> value -> result (list Z))
+           (fields : list (string * value)) (m : member_of ty) : result (option (list Z)) :=
   match lookup (m_name m) fields with
   | Some v =>
     match m_opt m with
     | Default d => let* isd := is_default fuel (m_ty m) v d in
-                   if isd then Ok [] else encf (m_ty m) v
-    | _ => encf (m_ty m) v
+                   if isd then Ok (Some []) else let* bs := encf (m_ty m) v in Ok (Some bs)
+    | _ => let* bs := encf (m_ty m) v in Ok (Some bs)
     end
   | None =>
     match m_opt m with
-    | Mandatory => Err EEncode
-    | _ => Ok []
+    | Mandatory => Ok None
+    | _ => Ok (Some [])
     end
   end.
 
-(** MembersType.encode_additions: one addition (member or group) at a time;
-    an EncodeError drops that addition and all later ones *)
-Fixpoint enc_additions (encm : member_of ty -> result (list Z)) (adds : list (addition_of ty))
+Definition enc_member (fuel : nat) (encf : ty -> value -> result (list Z))
+           (fields : list (string * value)) (m : member_of ty) : result (list Z) :=
+  match enc_member_opt fuel encf fields m with
+  | Ok (Some bs) => Ok bs
+  | Ok None => Err EEncode
+  | Err x => Err x
+  end.
+
+(** the members of one addition (member or group), in order; [None] as soon as
+    a member is missing *)
+Fixpoint enc_addition (encm : member_of ty -> result (option (list Z))) (ms : list (member_of ty))
+  : result (option (list (list Z))) :=
+  match ms with
+  | [] => Ok (Some [])
+  | m :: r =>
+    let* o := encm m in
+    match o with
+    | None => Ok None
+    | Some bs =>
+      let* rest := enc_addition encm r in
+      match rest with
+      | None => Ok None
+      | Some l => Ok (Some (bs :: l))
+      end
+    end
+  end.
+
+(** MembersType.encode_additions: one addition at a time; a missing member
+    (EncodeError without location) drops that addition and all later ones; an
+    error raised inside a present member has a location and is re-raised *)
+Fixpoint enc_additions (encm : member_of ty -> result (option (list Z))) (adds : list (addition_of ty))
   : result (list (list Z)) :=
   match adds with
   | [] => Ok []
   | a :: r =>
-    match mapM encm (snd a) with
-    | Err EEncode => Ok []
-    | Err x => Err x
-    | Ok one => let* more := enc_additions encm r in Ok (one ++ more)
+    let* one := enc_addition encm (snd a) in
+    match one with
+    | None => Ok []
+    | Some l => let* more := enc_additions encm r in Ok (l ++ more)
     end
   end.
 
@@ -577,7 +607,7 @@ Fixpoint enc (fuel : nat) (ovr : ovr_t) (t : ty) (v : value) {struct fuel} : res
         let encm := enc_member f (fun t' v' => enc f None t' v') fields in
         let* r := mapM encm root' in
         let* a := match ext with
-                  | Some adds => enc_additions encm adds
+                  | Some adds => enc_additions (enc_member_opt f (fun t' v' => enc f None t' v') fields) adds
                   | None => Ok []
                   end in
         let parts := r ++ a in
